@@ -48,18 +48,35 @@ func checkC10(c *Ctx) {
 		if !c.Anchor("R10.4", t.pkg+"."+t.typ+"."+t.m, fn != nil) {
 			continue
 		}
+		tt := t
+		sel := func(cl ssa.CallInstruction) bool {
+			return (IsCallTo(cl, tt.inner) || IsCallTo(cl, "(go.uber.org/zap/zapcore.WriteSyncer).Write")) && cl.Common().IsInvoke() && cl.Common().Method.Name() == tt.m
+		}
 		var inner *ssa.Call
-		for _, cl := range CallsDeep(fn) {
-			if (IsCallTo(cl, t.inner) || IsCallTo(cl, "(go.uber.org/zap/zapcore.WriteSyncer).Write")) && cl.Common().IsInvoke() && cl.Common().Method.Name() == t.m {
-				inner, _ = cl.(*ssa.Call)
+		if t.typ == "CheckedEntry" {
+			for _, cl := range CallsDeep(fn) {
+				if sel(cl) {
+					inner, _ = cl.(*ssa.Call)
+				}
+			}
+			if inner == nil {
+				c.Bad("R10.4", fn.String(), "visits-all", fn.Pos(), "no delegating call")
+				continue
+			}
+			ok, over, why := LoopVisitsAll(inner.Parent(), inner)
+			c.Check(ok, "R10.4", fn.String(), "visits-all", inner.Pos(), "every element of %s is visited whatever the earlier ones returned %s", over, why)
+		} else {
+			ok, why, in2, _ := VisitsAll(fn, sel, fn.Params[0])
+			inner = in2
+			pos := fn.Pos()
+			if inner != nil {
+				pos = inner.Pos()
+			}
+			c.Check(ok, "R10.4", fn.String(), "visits-all", pos, "every element of %s is visited whatever the earlier ones returned %s", fn.Params[0].Name(), why)
+			if inner == nil {
+				continue
 			}
 		}
-		if inner == nil {
-			c.Bad("R10.4", fn.String(), "visits-all", fn.Pos(), "no delegating call")
-			continue
-		}
-		ok, over, why := LoopVisitsAll(inner.Parent(), inner)
-		c.Check(ok, "R10.4", fn.String(), "visits-all", inner.Pos(), "every element of %s is visited whatever the earlier ones returned %s", over, why)
 		// errors folded
 		if t.typ == "CheckedEntry" {
 			c13ErrFold(c, inner.Parent(), inner, inner, "R10.4", fn.String()+"/fold")
